@@ -111,7 +111,7 @@ func runInit(id string, e *env, c *acase, proj string, part *h.Partial) {
 		}
 	}
 	before := h.Snap(proj, false)
-	res := h.CLI{Bin: e.bin, Dir: w, Args: args, Timeout: 120 * time.Second}.Run()
+	res := runCLI(h.CLI{Bin: e.bin, Dir: w, Args: args, Timeout: 120 * time.Second}, filepath.Join(e.capDir, fmt.Sprintf("i%06d", c.idx)))
 	after := h.Snap(proj, false)
 	part.Eval(c.key(), ic.HasArg)
 	part.Count("cli_runs", 1)
